@@ -1,0 +1,20 @@
+//go:build verif
+
+// Contracts for the contract-based verification in /verif (comment-only file).
+
+package segment
+
+//@ # ---- C22: the segment-identifier accumulator ("beta") of a path segment
+//@ # sigma(p, i): the first two MAC bytes of AS entry i's hop field (an abstract sequence; functions that
+//@ # iterate over the entries state the connection to the heap as a precondition, see sigmaDef)
+//@ spec func sigma(p *PathSegment, i int) uint16 uninterpreted
+//@ # betaAt(p, s0, k): accumulator value used when the hop field of entry k was created
+//@ #   beta_0 = SegmentID,  beta_{k+1} = beta_k XOR MAC_k[0:2]      (scion-header.rst, hop field MAC computation)
+//@ spec func betaAt(p *PathSegment, s0 uint16, k int) uint16 = rec ite(k <= 0, s0, betaAt(p, s0, k-1)^sigma(p, k-1))
+
+//@ # egress in construction direction: XOR with the hop's MAC moves the accumulator to the next hop's value
+//@ lemma betaStepCons C22: forall p *PathSegment, s0 uint16, k int :: k >= 0 && k < 1000000 ==> betaAt(p, s0, k)^sigma(p, k) == betaAt(p, s0, k+1)
+//@ # ingress against construction direction: the packet carries beta_{k+1}; XOR with the hop's own MAC yields beta_k
+//@ lemma betaStepAgainst C22: forall p *PathSegment, s0 uint16, k int :: k >= 0 && k < 1000000 ==> betaAt(p, s0, k+1)^sigma(p, k) == betaAt(p, s0, k)
+//@ # peering hops: the peer hop field of entry k and the hop field of entry k+1 are validated from the same value
+//@ lemma betaPeer C22: forall p *PathSegment, s0 uint16, k int :: k >= 0 && k < 1000000 ==> betaAt(p, s0, k)^sigma(p, k) == betaAt(p, s0, k+1)
